@@ -187,6 +187,12 @@ def worker_main(prop_id, tier, w, nworkers, seed, outfile):
                     # inconclusive case (time budget): never a violation; keep searching
                     st["timeouts"] = st.get("timeouts", 0) + 1
                     st.setdefault("timeout_notes", []).append(str(ex)[:200])
+                    try:
+                        os.makedirs(os.path.join(REPLAY_DIR, prop_id), exist_ok=True)
+                        with open(os.path.join(REPLAY_DIR, prop_id, "inconclusive-%s.json" % case_hash(case)), "w") as f:
+                            json.dump({"property": prop_id, "case": case, "note": str(ex)[:300]}, f, default=repr)
+                    except Exception:  # noqa
+                        pass
                     if st["timeouts"] > 2:
                         raise
                     return
